@@ -302,6 +302,23 @@ def oracle(case, out):
         n = out["z_n"]
         if abs(out["z_mean"]) > 6 / math.sqrt(n) or abs(out["z_msq"] - 1) > 6 * math.sqrt(2.0 / n):
             return "IsotropicGaussian::sample: standardised increments have mean %r, mean square %r over %d draws" % (out["z_mean"], out["z_msq"], n)
+    if op == "rosen2":
+        # -(a - x)^2 - b (y - x^2)^2 and its gradient, for every a (not only the usual a = 1)
+        a, b = rd(f, bf(case["a"])), rd(f, bf(case["b"]))
+        for k in range(len(case["points"]) // 2):
+            x, y = rd(f, bf(case["points"][2 * k])), rd(f, bf(case["points"][2 * k + 1]))
+            lp = -(a - x) ** 2 - b * (y - x * x) ** 2
+            g = [2 * (a - x) + 4 * b * x * (y - x * x), -2 * b * (y - x * x)]
+            sc = 1 + (abs(a) + abs(x)) ** 2 + abs(b) * (abs(y) + x * x) ** 2
+            gsc = 1 + 2 * (abs(a) + abs(x)) + 4 * abs(b) * abs(x) * (abs(y) + x * x) + 2 * abs(b) * (abs(y) + x * x)
+            for name in ("batch", "single"):
+                if abs(bf(out[name][k]) - lp) > 2.0 ** -11 * sc:
+                    return "Rosenbrock2D(a=%r, b=%r) %s log-density at (%r, %r) = %.9g, definition gives %.9g" % (a, b, name, x, y, bf(out[name][k]), lp)
+            for j in range(2):
+                for name in ("batch_grad", "single_grad"):
+                    if name in out and abs(bf(out[name][2 * k + j]) - g[j]) > 2.0 ** -10 * gsc:
+                        return "Rosenbrock2D(a=%r, b=%r) %s[%d] at (%r, %r) = %.9g, the derivative of the log-density is %.9g" % (
+                            a, b, name, j, x, y, bf(out[name][2 * k + j]), g[j])
     if op == "gauss2d":
         m, cv = params(case)
         det = cv[0] * cv[3] - cv[1] * cv[2]
